@@ -101,5 +101,20 @@ Proof. split.
 Qed.
 End C.
 
+(* non-vacuity in the regime of the defaults (minScore 1000, breakSegmentThreshold 1200): a run with an unpaired position inside *)
+Lemma complete_example : seg_ok 1000 1200 [1000; -250; 1000] (0%nat, 3%nat, 1750) /\
+                         factory_ranges 1000 1200 [1000; -250; 1000] = [(0%nat, 3%nat, 1750)] /\ 0 < 1000 <= 1200.
+Proof.
+  split; [|split; [vm_compute; reflexivity | lia]].
+  unfold seg_ok, rA, rB, rX. cbn [fst snd length].
+  split; [lia|]. split; [vm_compute; reflexivity|]. split; [lia|]. split.
+  - intros j Hj. assert (Ej : j = 1%nat \/ j = 2%nat \/ j = 3%nat) by lia.
+    destruct Ej as [-> | [-> | ->]]; (split; [vm_compute; reflexivity|]); intros i Hi.
+    + lia.
+    + assert (i = 1%nat) by lia. subst i. vm_compute. reflexivity.
+    + assert (Ei : i = 1%nat \/ i = 2%nat) by lia. destruct Ei as [-> | ->]; vm_compute; reflexivity.
+  - intros j Hj. assert (Ej : j = 1%nat \/ j = 2%nat) by lia. destruct Ej as [-> | ->]; vm_compute; reflexivity.
+Qed.
+
 Print Assumptions factory_complete.
 Print Assumptions factory_empty_iff_no_run.
